@@ -1,4 +1,4 @@
-import SignalGen.Generated
+import SignalGen.Gen.Buffer
 import SignalProofs.Props.ChanLen
 /-!
 # Regenerated tie, C01 / C12: the accessors of `Buffer[T]` (`Cap`, `Len`, `Capacity`, `Length`, `channelLength`, `Sample`, `SetSample`), as the Go source defines them now (slice primitives, pointer receiver, run-time checks), equal the model's functions for every heap, header and argument. Hypotheses are those of every reachable state: `cap < 2^63` (no Go slice is longer); below 2^53 samples for the float64 ceiling.
